@@ -137,11 +137,20 @@ class Facts:
 
 
 def short(p):
-    """Last path segment of a (possibly generic) type or def path."""
+    """Last path segment of a (possibly generic) type or def path, generic arguments removed."""
     if p is None:
         return ""
-    base = p.split("<")[0] if not p.startswith("<") else p
-    return base.split("::")[-1]
+    out = []
+    depth = 0
+    for ch in p:
+        if ch == "<":
+            depth += 1
+        elif ch == ">":
+            depth -= 1
+        elif depth == 0:
+            out.append(ch)
+    segs = [s for s in "".join(out).split("::") if s]
+    return segs[-1] if segs else ""
 
 
 def where(body, node=None):
